@@ -18,4 +18,30 @@ Definition register (r : N) (bits : list bool) : N := fold_left step bits r.
 Definition crc (bs : bytes) : N := register init (bits_of bs).
 (* what a receiver checks: the register is zero after the message followed by its CRC *)
 Definition residue_ok (section : bytes) : Prop := crc section = 0.
+
+(* The same checksum in the usual byte-at-a-time, table-driven formulation (a second textbook definition;
+   Proofs/CrcTable.v proves it equal to the bit-serial register on every byte string):
+   table[i] = the register after clocking eight zero bits from i << 24,
+   r := (r << 8 mod 2^32) xor table[(r >> 24) xor byte] *)
+Definition table_entry (i : N) : N := register (i * 16777216) [false; false; false; false; false; false; false; false].
+Fixpoint nrange (k : N) (n : nat) : list N := match n with O => [] | S m => k :: nrange (k + 1) m end.
+Definition table : list N := map table_entry (nrange 0 256).
+Definition table_step (r b : N) : N :=
+  N.lxor ((r * 256) mod 4294967296) (nth (N.to_nat (N.lxor (r / 16777216) b)) table 0).
+Definition crc_tab (bs : bytes) : N := fold_left table_step bs init.
+
+(* single-bit messages: L bytes, all zero except bit j (0 = most significant) of byte i *)
+Definition single (L i j : nat) : bytes := repeat 0 i ++ [2 ^ (7 - N.of_nat j)] ++ repeat 0 (L - 1 - i).
+(* the CRCs of ALL 8L single-bit messages of L bytes, in the order (byte 0 bit 0), (byte 0 bit 1), ..., computed in
+   linear time from the linearity of the register: crc = (L zero bytes clocked from init) xor (zero-steps of the
+   polynomial); Proofs/CrcLinear.v proves that entry 8i+j is crc (single L i j) *)
+Definition zstep (r : N) : N := step r false.
+Fixpoint iterz (n : nat) (x : N) : N := match n with O => x | S k => iterz k (zstep x) end.
+Fixpoint singles_aux (n : nat) (cur z : N) (out : list N) : list N :=
+  match n with O => out | S m => singles_aux m (zstep cur) z (N.lxor z cur :: out) end.
+Definition singles_fast (L : nat) : list N := singles_aux (8 * L) poly (iterz (8 * L) init) [].
+
+(* a transmission error: bit j (0 = most significant) of byte i flipped *)
+Definition flip (bs : bytes) (i j : nat) : bytes :=
+  firstn i bs ++ [N.lxor (nth i bs 0) (2 ^ (7 - N.of_nat j))] ++ skipn (S i) bs.
 End Crc32.
